@@ -8,6 +8,10 @@ pub mod diag;
 
 pub mod c01;
 pub mod c02;
+pub mod c03;
+pub mod c04;
+pub mod c06;
+pub mod codes;
 pub mod c07;
 pub mod readhist;
 pub mod c19;
@@ -16,6 +20,9 @@ pub fn run(prop: &str, ctx: &Ctx) -> Option<Report> {
     Some(match prop {
         "C01" => c01::run(ctx),
         "C02" => c02::run(ctx),
+        "C03" => c03::run(ctx),
+        "C04" => c04::run(ctx),
+        "C06" => c06::run(ctx),
         "C07" => c07::run(ctx),
         _ => return None,
     })
@@ -26,6 +33,9 @@ pub fn replay(prop: &str, case: &str, rep: &mut Report) -> bool {
     match prop {
         "C01" => c01::replay(case, rep),
         "C02" => c02::replay(case, rep),
+        "C03" => c03::replay(case, rep),
+        "C04" => c04::replay(case, rep),
+        "C06" => c06::replay(case, rep),
         "C07" => c07::replay(case, rep),
         _ => return false,
     }
